@@ -30,7 +30,8 @@ PROBES = ["fallback_taken", "fallback_desc_false", "model_kept", "all_untrained"
           "memorise_worse_branch", "override_on", "enc_pm1", "enc_10", "enc_bool", "parquet", "workers>1",
           "zero_scores_returned", "multi_file", "confidence_checked", "confidence_desc_false", "fold_aligned_feature",
           "folds_disagree_on_best_feature", "all_trained_but_fallback", "confidence_rollup_level_checked", "confidence_repeated",
-          "feat_pass_compared_with_reference", "integer_best_feature", "tied_values_compete", "targets_listed_before_decoys", "saved_and_loaded_models_reapplied"]
+          "feat_pass_compared_with_reference", "integer_best_feature", "tied_values_compete", "targets_listed_before_decoys", "saved_and_loaded_models_reapplied",
+          "same_paths_analysed_before_with_other_labels"]
 RULE = (
     "For each sampled data set (planted strong feature, lower-is-better in half of them; 3 label encodings; text/Parquet) "
     "and fold count, EVERY assignment of {good, noise, constant, raise_recognised, anti, memorise, overfit} to the folds' estimators "
@@ -244,6 +245,19 @@ def run_scenario(scn, workdir):
                 for o in others:
                     row[o] = float(f"{r2.gauss(0.0, 1.0):.6f}")
         probes["fold_aligned_feature"] = 1
+    # ---- in a quarter of the scenarios the very paths of pass 2 were analysed before in this process, holding the same
+    # PSMs in the opposite row order (a re-exported file of the same shape): nothing read then may be used now
+    stale = scn.get("stale_prior")
+    if stale is None:
+        stale = random.Random(f"stale|{scn['seed']}").random() < 0.25
+    if stale:
+        rev = [{"columns": list(t["columns"]), "rows": [list(r) for r in reversed(t["rows"])],
+                "meta": dict(t["meta"], truth_correct=list(reversed(t["meta"]["truth_correct"])))} for t in tables]
+        cfg0 = dict(cfg1)
+        cfg0["override"] = False  # (the comparison with the best feature is part of what the earlier analysis did)
+        P.run_pipeline(rev, cfg0, workdir, "pass2", fmt=scn["format"], row_group=scn.get("row_group"),
+                       sched_desc={"mode": "fifo"}, knobs=None, stop_after="brew")
+        probes["same_paths_analysed_before_with_other_labels"] = 1
     # ---- pass 2: faulty estimators
     estimators.REGISTRY.clear()
     # how much worse than the best feature an "overfit" learner generalises varies: only slightly worse is the
@@ -441,6 +455,8 @@ def run_scenario(scn, workdir):
 
 
 def shrink_candidates(scn):
+    if scn.get("stale_prior") is not False:
+        c = clone(scn); c["stale_prior"] = False; yield c
     cfg, dp = scn["cfg"], scn["data"]
     for i, m in enumerate(scn["modes"]):
         if m != "good":
